@@ -295,6 +295,14 @@ def fuse_slice(a, b):
         if a_has_lists and b_has_lists:
             raise NotImplementedError("Can't handle multiple list indexing")
         elif a_has_lists:
+            if any(isinstance(item, Integral) for item in a):
+                # x[int, :, list] puts the list's axis first (NumPy treats the
+                # integer as an advanced index too), so the axes of ``x[a]``
+                # are not in the order of ``a``'s entries and the walk below
+                # would pair ``b`` with the wrong ones
+                raise NotImplementedError(
+                    "Can't handle a list and an integer in the inner index"
+                )
             check_for_nonfusible_fancy_indexing(a, b)
         elif b_has_lists:
             check_for_nonfusible_fancy_indexing(b, a)
